@@ -42,7 +42,7 @@ impl Stats {
     }
 }
 
-#[derive(Debug)]
+#[derive(Debug, Default)]
 pub(crate) struct StatsSet<T> {
     /// Associated with minimum amount of time taken by an iteration.
     pub fastest: T,
